@@ -24,6 +24,7 @@ structure GoodOrders (O : Orders) : Prop where
   diffGuard : O.diffGuard = [0, 1, 2]
   sliceGuard : O.sliceGuard = [0, 1, 2]
   chDiffGuard : O.chDiffGuard = [0, 2]
+  creationStoresLocal : O.creationStoresLocal = true
   applyPtsBreak : O.applyPtsBreak = false
   chApplyPtsBreak : O.chApplyPtsBreak = false
   ownDirect : O.ownDirect = true
@@ -71,6 +72,8 @@ theorem Scn.above {log keys org} (h : Scn log keys org) (k : Nat) (hk : k ∈ ke
 def ItemOK (log : List Entry) (c : Nat) : ChItem → Prop
   | .upd e => e.seqKey = some (2 + c) ∧ (e ∈ log ∨ (e.count = 0 ∧ 0 < e.pos ∧ mkOf log e.id = true))
   | .tooLong _ => True
+  | .subscribe => True
+
 
 /-- Ids and queues of the channel workers. -/
 def Mgr.queues (m : Mgr) : List (Nat × List ChItem) := m.chans.map fun ch => (ch.id, ch.queue)
@@ -95,6 +98,11 @@ structure MInv (O : Orders) (log : List Entry) (keys : List Nat) (org start : Na
   c0 : ∀ c, 2 + c ∈ keys → m.w.chanInit c = org (2 + c)
   queues : ∀ q ∈ m.queues, 2 + q.1 ∈ keys ∧ ∀ it ∈ q.2, ItemOK log q.1 it
   internal : ∀ cont ∈ m.internal, ∀ e ∈ cont, e ∈ log
+  /-- a channel the storage knows starts from the stored pts; one it does not know starts from the
+  declared first-contact position; both are keys -/
+  startP : ∀ c sp, m.w.persisted.find? (·.1 == c) = some sp → start (2 + c) = sp.2 ∧ 2 + c ∈ keys
+  startC : ∀ c d, m.w.persisted.find? (·.1 == c) = none → m.w.cr.find? (·.1 == c) = some d →
+    start (2 + c) = d.2 ∧ 2 + c ∈ keys
 
 /-- Facts that only depend on parts of the manager that `seqOp` does not touch. -/
 theorem seqOp_w (O : Orders) (m : Mgr) (k : Nat) (op : SOp) : (m.seqOp O k op).w = m.w := by
@@ -137,12 +145,14 @@ theorem minv_seqOp {O log keys org start m} (hO : GoodOrders O) (hS : Scn log ke
     (hw : ∀ b, m.getBox k = some b → wfOp (seqLog log k) (mkOf log) b op = true)
     (hq : k = 1 → ∀ b, m.getBox k = some b → SEv.tooLong ∉ (sstep (cfgOf O log k) b op).2) :
     MInv O log keys org start (m.seqOp O k op) := by
-  refine ⟨coh_seqOp hS.uniq h.coh k (goodCfg_of O hO log k) op hw hq, ?_, ?_, ?_, ?_, ?_⟩
+  refine ⟨coh_seqOp hS.uniq h.coh k (goodCfg_of O hO log k) op hw hq, ?_, ?_, ?_, ?_, ?_, ?_, ?_⟩
   · rw [seqOp_w]; exact h.p0
   · rw [seqOp_w]; exact h.q0
   · intro c hc; rw [seqOp_w]; exact h.c0 c hc
   · rw [seqOp_queues]; exact h.queues
   · rw [seqOp_internal]; exact h.internal
+  · rw [seqOp_w]; exact h.startP
+  · rw [seqOp_w]; exact h.startC
 
 /-! ### Pushes -/
 
@@ -194,7 +204,7 @@ theorem queues_pushChan (m : Mgr) (c : Nat) (it : ChItem) :
 
 theorem minv_pushChan {O log keys org start m} (h : MInv O log keys org start m) (c : Nat) (it : ChItem)
     (hit : ItemOK log c it) : MInv O log keys org start (m.pushChan c it) := by
-  refine ⟨coh_pushChan h.coh c it, h.p0, h.q0, h.c0, ?_, h.internal⟩
+  refine ⟨coh_pushChan h.coh c it, h.p0, h.q0, h.c0, ?_, h.internal, h.startP, h.startC⟩
   intro q hq
   rw [queues_pushChan] at hq
   obtain ⟨q0, hq0, rfl⟩ := List.mem_map.1 hq
@@ -216,7 +226,7 @@ theorem neutral_restore (log : List Entry) (keys : List Nat) (p q : Int) : Neutr
 
 theorem minv_emit_neutral {O log keys org start m} (h : MInv O log keys org start m) (evs : List Event)
     (hn : Neutral log keys evs) : MInv O log keys org start (m.emit evs) :=
-  ⟨coh_emit_neutral h.coh evs hn, h.p0, h.q0, h.c0, h.queues, h.internal⟩
+  ⟨coh_emit_neutral h.coh evs hn, h.p0, h.q0, h.c0, h.queues, h.internal, h.startP, h.startC⟩
 
 theorem kind_seqKey0 (e : Entry) (h : e.kind = .msg ∨ e.kind = .other) : e.seqKey = some 0 := by
   rcases h with h | h <;> simp [Entry.seqKey, h]
@@ -225,6 +235,72 @@ theorem kind_seqKey1 (e : Entry) (h : e.kind = .qts ∨ e.kind = .qother) : e.se
 theorem kind_seqKeyCh (e : Entry) (h : e.kind = .chmsg ∨ e.kind = .chother ∨ e.kind = .chaff) :
     e.seqKey = some (2 + e.chan) := by
   rcases h with h | h | h <;> simp [Entry.seqKey, h]
+
+theorem queues_addChan (m : Mgr) (c : Nat) (pts : Int) : (m.addChan c pts).queues = m.queues ++ [(c, [])] := by
+  simp [Mgr.addChan, Mgr.queues]
+
+theorem getBox_none_of_not_hasChan (m : Mgr) (c : Nat) (h : m.hasChan c = false) : m.getBox (2 + c) = none := by
+  unfold Mgr.getBox
+  have h0 : ¬ (2 + c = 0) := by omega
+  have h1 : ¬ (2 + c = 1) := by omega
+  have h2 : 2 + c - 2 = c := by omega
+  simp only [h0, h1, if_false, h2]
+  unfold Mgr.hasChan at h
+  cases hf : m.chans.find? (·.id == c) with
+  | none => rfl
+  | some ch =>
+    have hm := List.mem_of_find?_eq_some hf
+    have hid := List.find?_some hf
+    have : m.chans.any (·.id == c) = true := List.any_eq_true.2 ⟨ch, hm, hid⟩
+    rw [this] at h; cases h
+
+theorem minv_addChan {O log keys org start m} (h : MInv O log keys org start m) (c : Nat) (pts : Int)
+    (hk : 2 + c ∈ keys) (hb : m.getBox (2 + c) = none) (hs : start (2 + c) = pts) :
+    MInv O log keys org start (m.addChan c pts) := by
+  refine ⟨coh_addChan h.coh c pts hk hb hs, h.p0, h.q0, h.c0, ?_, h.internal, h.startP, h.startC⟩
+  intro q hq
+  rw [queues_addChan] at hq
+  rcases List.mem_append.1 hq with h' | h'
+  · exact h.queues q h'
+  · simp only [List.mem_singleton] at h'
+    subst h'
+    exact ⟨hk, fun it hit => by simp at hit⟩
+
+theorem minv_bad {O log keys org start m} (h : MInv O log keys org start m) :
+    MInv O log keys org start { m with bad := true } :=
+  ⟨⟨h.coh.hlog, h.coh.box, h.coh.tr, h.coh.wf, h.coh.pend, h.coh.nobox⟩, h.p0, h.q0, h.c0, h.queues, h.internal,
+    h.startP, h.startC⟩
+
+theorem minv_firstContact {O log keys org start m} (hO : GoodOrders O) (hS : Scn log keys org)
+    (h : MInv O log keys org start m) (e : Entry) (he : e ∈ log) (hek : e.seqKey = some (2 + e.chan))
+    (hno : m.hasChan e.chan = false) : MInv O log keys org start (m.firstContact O e) := by
+  unfold Mgr.firstContact
+  have hb := getBox_none_of_not_hasChan m e.chan hno
+  simp only
+  split
+  · exact minv_emit_neutral h _ (neutral_restore log keys _ _)
+  · split
+    · rename_i sp hsp
+      obtain ⟨hst, hk⟩ := h.startP e.chan sp hsp
+      have h1 := minv_addChan h e.chan sp.2 hk hb hst
+      exact minv_pushChan (minv_pushChan h1 e.chan .subscribe trivial) e.chan (.upd e) ⟨hek, Or.inl he⟩
+    · rename_i hsp
+      split
+      · exact minv_bad h
+      · rename_i d hd
+        obtain ⟨hst, hk⟩ := h.startC e.chan d hsp hd
+        split
+        · have h1 := minv_addChan h e.chan d.2 hk hb hst
+          have h2 : MInv O log keys org start ((m.addChan e.chan d.2).seqOp O (2 + e.chan)
+              (.seq storeOnlyShape (if O.creationStoresLocal then d.2 else e.pos) [])) := by
+            apply minv_seqOp hO hS h1
+            · intro b hb'
+              rw [getBox_addChan_same m e.chan d.2 hb] at hb'
+              rw [← Option.some.inj hb', hO.creationStoresLocal]
+              simp [wfOp, storeOnlyShape, diffShape, emptyShape, tooLongShape, cbOnlyShape]
+            · intro h1'; omega
+          exact minv_pushChan (minv_pushChan h2 e.chan .subscribe trivial) e.chan (.upd e) ⟨hek, Or.inl he⟩
+        · exact minv_bad h
 
 theorem minv_route {O log keys org start m} (hO : GoodOrders O) (hS : Scn log keys org)
     (h : MInv O log keys org start m) (e : Entry) (he : e ∈ log) :
@@ -238,13 +314,15 @@ theorem minv_route {O log keys org start m} (hO : GoodOrders O) (hS : Scn log ke
   | chmsg =>
     simp only
     split
-    · exact minv_emit_neutral h _ (neutral_restore log keys _ _)
     · exact minv_pushChan h e.chan (.upd e) ⟨kind_seqKeyCh e (Or.inl hk), Or.inl he⟩
+    · rename_i hno
+      exact minv_firstContact hO hS h e he (kind_seqKeyCh e (Or.inl hk)) (by simpa using hno)
   | chother =>
     simp only
     split
-    · exact minv_emit_neutral h _ (neutral_restore log keys _ _)
     · exact minv_pushChan h e.chan (.upd e) ⟨kind_seqKeyCh e (Or.inr (Or.inl hk)), Or.inl he⟩
+    · rename_i hno
+      exact minv_firstContact hO hS h e he (kind_seqKeyCh e (Or.inr (Or.inl hk))) (by simpa using hno)
   | plain => exact h
   | aff => exact h
   | chaff => exact h
@@ -314,6 +392,35 @@ theorem minv_applyCombined {O log keys org start m} (hO : GoodOrders O) (hS : Sc
     have : e.kind = .plain := by simpa using hk
     simp [Entry.seqKey, this]
 
+theorem pushChan_pts (m : Mgr) (c : Nat) (it : ChItem) : (m.pushChan c it).pts = m.pts ∧ (m.pushChan c it).qts = m.qts :=
+  ⟨rfl, rfl⟩
+
+theorem seqOp_chan_common (O : Orders) (m : Mgr) (c : Nat) (op : SOp) :
+    (m.seqOp O (2 + c) op).pts = m.pts ∧ (m.seqOp O (2 + c) op).qts = m.qts := by
+  unfold Mgr.seqOp
+  split
+  · exact ⟨rfl, rfl⟩
+  · have h0 : ¬ (2 + c = 0) := by omega
+    have h1 : ¬ (2 + c = 1) := by omega
+    refine ⟨?_, ?_⟩ <;> simp [Mgr.logOp, Mgr.emit, Mgr.setBox, h0, h1]
+
+theorem firstContact_common_boxes (O : Orders) (m : Mgr) (e : Entry) :
+    (m.firstContact O e).pts = m.pts ∧ (m.firstContact O e).qts = m.qts := by
+  unfold Mgr.firstContact
+  simp only
+  split
+  · exact ⟨rfl, rfl⟩
+  · split
+    · exact ⟨rfl, rfl⟩
+    · split
+      · exact ⟨rfl, rfl⟩
+      · rename_i d _
+        split
+        · have := seqOp_chan_common O (m.addChan e.chan d.2) e.chan
+            (.seq storeOnlyShape (if O.creationStoresLocal then d.2 else e.pos) [])
+          exact ⟨this.1, this.2⟩
+        · exact ⟨rfl, rfl⟩
+
 /-- Routing updates that are not of the common sequences leaves the pts and qts boxes alone. -/
 theorem route_common_boxes (O : Orders) (m : Mgr) (e : Entry) (he : ownCommon e = false) :
     (m.route O e).pts = m.pts ∧ (m.route O e).qts = m.qts := by
@@ -321,7 +428,9 @@ theorem route_common_boxes (O : Orders) (m : Mgr) (e : Entry) (he : ownCommon e 
   cases hk : e.kind <;> simp [ownCommon, hk] at he <;> simp only
   all_goals first
     | exact ⟨rfl, rfl⟩
-    | (split <;> exact ⟨rfl, rfl⟩)
+    | (split
+       · exact ⟨rfl, rfl⟩
+       · exact firstContact_common_boxes O m e)
     | simp
 
 theorem applyCombined_common_boxes (O : Orders) (m : Mgr) (cont : List Entry) (hc : ∀ e ∈ cont, ownCommon e = false) :
